@@ -193,9 +193,11 @@ class RemoteContext(SupportRemoteGetState):
             self._children.append(child)
             return True
         except ConnectionClosedError:
+            cli.close()
             return False
         except Exception:
             # whatever goes wrong while creating a worker for one client (e.g. the client has reset the connection
             # in the middle of the handshake) must not take the whole context - and other clients' workers - down
             logger.exception('Could not create a new worker in context {}', self._id)
+            cli.close() # let the client know that nothing will come
             return False
